@@ -425,6 +425,11 @@ func (t *threadSafeList[T]) PushBackList(other List[T]) {
 	t.mutex.Lock()
 	defer t.mutex.Unlock()
 
+	// the list may be pushed onto itself: read it through the underlying list instead of re-acquiring the mutex
+	if other == List[T](t) {
+		other = t.list
+	}
+
 	t.list.PushBackList(other)
 }
 
@@ -432,6 +437,11 @@ func (t *threadSafeList[T]) PushBackList(other List[T]) {
 func (t *threadSafeList[T]) PushFrontList(other List[T]) {
 	t.mutex.Lock()
 	defer t.mutex.Unlock()
+
+	// the list may be pushed onto itself: read it through the underlying list instead of re-acquiring the mutex
+	if other == List[T](t) {
+		other = t.list
+	}
 
 	t.list.PushFrontList(other)
 }
